@@ -654,7 +654,7 @@ def shape_of(f):
 
 
 # C++ parameter type classes for overload resolution (const and non-const pointers are different overloads;
-# the wrapper keeps the constness in its call since 3b751d7)
+# the wrapper keeps the constness in its call since 9b03bee)
 CXX_CLASS = {"ilist": "const int*", "cintp": "const int*", "ilist_inout": "int*", "int_out": "int*", "int_inout": "int*",
              "idim_out": "int*", "dlist": "const double*", "double_out": "double*", "double_inout": "double*",
              "ddim_out": "double*", "implied": "int", "enum": "int"}
